@@ -39,7 +39,18 @@ func batchScript(c Config) string {
 	if c.Three {
 		parents, names = "b, c", "'a', 'b', 'c'"
 	}
-	fmt.Fprintf(&sb, "a|join(%s).as(%s)", parents, names)
+	first := "a"
+	if c.Unbuffered {
+		// where() forwards a batch message by message: the multi-parent consumer has to re-assemble it
+		for i := 0; i < n; i++ {
+			fmt.Fprintf(&sb, "var %cw = %c|where(lambda: TRUE)\n", 'a'+i, 'a'+i)
+		}
+		first, parents = "aw", "bw"
+		if c.Three {
+			parents = "bw, cw"
+		}
+	}
+	fmt.Fprintf(&sb, "%s|join(%s).as(%s)", first, parents, names)
 	if c.TolS > 0 {
 		fmt.Fprintf(&sb, ".tolerance(%ds)", c.TolS)
 	}
@@ -50,8 +61,8 @@ func batchScript(c Config) string {
 		sb.WriteString(".fill(0.0)")
 	}
 	sb.WriteString("|log().prefix('J')\n")
-	fmt.Fprintf(&sb, "a|union(%s)|log().prefix('U')\n", parents)
-	fmt.Fprintf(&sb, "a|union(%s).rename('r')|log().prefix('R')\n", parents)
+	fmt.Fprintf(&sb, "%s|union(%s)|log().prefix('U')\n", first, parents)
+	fmt.Fprintf(&sb, "%s|union(%s).rename('r')|log().prefix('R')\n", first, parents)
 	return sb.String()
 }
 
@@ -155,7 +166,7 @@ func runBatch(t *testing.T, c Case) (o boutcome, p *problem) {
 		if s := env.Diag.Sink("J"); s != nil {
 			for _, b := range s.Batches() {
 				for _, pt := range b.Points {
-					o.join = append(o.join, fmt.Sprintf("B=%d t=%d g=%q %s", b.TMax.Sub(kit.T0)/time.Second, pt.T.Sub(kit.T0)/time.Second, b.Group, kit.FmtFields(pt.Fields)))
+					o.join = append(o.join, fmt.Sprintf("n=%s B=%d t=%d g=%q %s", b.Name, b.TMax.Sub(kit.T0)/time.Second, pt.T.Sub(kit.T0)/time.Second, b.Group, kit.FmtFields(pt.Fields)))
 				}
 			}
 		}
@@ -217,9 +228,13 @@ func refBatchJoin(c Config, bseqs [][]BatchIn) []string {
 			// the k-th set of batches
 			type pref struct{ v int64 }
 			byP := map[time.Time][][]pref{}
+			name := "" // the joined batch is named after the left-most parent present
 			for par, l := range lists {
 				if k >= len(l) {
 					continue
+				}
+				if name == "" {
+					name = string(rune('a' + par))
 				}
 				for pi, ts := range l[k].in.P {
 					ptm := rnd(ts)
@@ -256,7 +271,7 @@ func refBatchJoin(c Config, bseqs [][]BatchIn) []string {
 					if !complete && c.Fill == "" {
 						continue
 					}
-					out = append(out, fmt.Sprintf("B=%d t=%d g=%q %s", tm.Sub(kit.T0)/time.Second, ptm.Sub(kit.T0)/time.Second, "", kit.FmtFields(fields)))
+					out = append(out, fmt.Sprintf("n=%s B=%d t=%d g=%q %s", name, tm.Sub(kit.T0)/time.Second, ptm.Sub(kit.T0)/time.Second, "", kit.FmtFields(fields)))
 				}
 			}
 		}
@@ -364,6 +379,9 @@ func batchCfgKey(c Config) string {
 	if c.TolS > 0 {
 		k += "+tolerance"
 	}
+	if c.Unbuffered {
+		k += "+unbuffered"
+	}
 	return k
 }
 
@@ -422,7 +440,7 @@ func checkBatchInput(t *testing.T, cfg Config, bseqs [][]BatchIn, r *rep.R) (pro
 }
 
 func batchPart(t *testing.T, r *rep.R, n *int) {
-	cfgs := []Config{{}, {Fill: "null"}, {Fill: "0"}, {TolS: 3}, {TolS: 3, Fill: "null"}, {Three: true, Fill: "null"}}
+	cfgs := []Config{{}, {Fill: "null"}, {Fill: "0"}, {TolS: 3}, {TolS: 3, Fill: "null"}, {Three: true, Fill: "null"}, {Unbuffered: true}, {Unbuffered: true, Fill: "null"}}
 	for _, cfg := range cfgs {
 		tmaxs, ptimes := []int{10, 20}, []int{1, 2}
 		if cfg.TolS == 3 {
